@@ -164,8 +164,10 @@ func (cmd *externalCommand) run(args []string, stdin string, callback func([]byt
 		args = allArgs
 	}
 	exec := &cmdExecution{cmd.exe, args, stdin, cmd.combineOutput}
+	cmd.mu.Lock() // This method may be called concurrently
 	idx := cmd.numRun
 	cmd.numRun++
+	cmd.mu.Unlock()
 	cmd.proc.run(&cmd.eg, exec, func(stdout []byte, err error) error {
 		err = callback(stdout, err)
 		if err != nil {
